@@ -6,28 +6,34 @@ From ArcGen Require Import Params_Rbac.
 Import ListNotations.
 Open Scope Z_scope.
 
-Definition is_delete_org (k : mkind) : bool := match k with KDeleteOrg => true | _ => false end.
-
-(* Every decision-affecting mutation invalidates on its success path - except, at most, the
-   one already recorded as an open finding (direct-mode DeleteOrganization).  A mutation
-   that newly loses its invalidation breaks this obligation. *)
-Theorem C20_direct_missing_known : forallb is_delete_org (missing direct_inval) = true.
+(* Every decision-affecting mutation invalidates enough on its success path, in both modes
+   (since eac348f this includes direct-mode DeleteOrganization).  A mutation that loses its
+   invalidation breaks these obligations. *)
+Theorem C20_direct_missing_none : missing direct_inval = [].
 Proof. reflexivity. Qed.
 
 Theorem C20_cluster_missing_none : missing cluster_inval = [].
+Proof. reflexivity. Qed.
+
+(* the permission cache key carries the token's own permissions and enabled flag (since ed2e486) *)
+Theorem C20_deployed_key_has_tokeninfo : perm_key_has_tokeninfo = true.
 Proof. reflexivity. Qed.
 
 Definition deployed_cfg (direct enabled : bool) (ttl : Z) : cfg :=
   {| c_enabled := enabled; c_ttl := ttl; c_key_ti := perm_key_has_tokeninfo;
      c_inval := if direct then direct_inval else cluster_inval |}.
 
-(* the guarded coherence theorem, instantiated with the tables and the key shape the code has NOW *)
-Theorem C20_deployed_coherent :
-  forall direct enabled ttl tiof t0 ops,
-  guarded (deployed_cfg direct enabled ttl) tiof ops ->
-  run (deployed_cfg direct enabled ttl) (init_st empty_db t0) ops = spec_run enabled empty_db ops.
-Proof. intros. apply (thm_coherent_guarded (deployed_cfg direct enabled ttl) tiof t0 ops). assumption. Qed.
+Lemma deployed_covers direct enabled ttl k : covers (c_inval (deployed_cfg direct enabled ttl) k) (need_of k) = true.
+Proof. destruct direct, k; reflexivity. Qed.
 
-(* in cluster-apply mode no mutation kind has to be excluded *)
-Theorem C20_deployed_cluster_covers : forall k, covers (cluster_inval k) (need_of k) = true.
-Proof. intros k. destruct k; reflexivity. Qed.
+(* PRIMARY: with the tables and the key shape the code has NOW, every operation sequence
+   (any mutations, single and batched checks with any TokenInfo, ticks, evictions, janitor
+   runs) in which no token is checked after its deletion gets the cache-free answers. *)
+Theorem C20_deployed_coherent :
+  forall direct enabled ttl t0 ops,
+  no_check_after_delete [] ops ->
+  run (deployed_cfg direct enabled ttl) (init_st empty_db t0) ops = spec_run enabled empty_db ops.
+Proof.
+  intros direct enabled ttl t0 ops H.
+  apply (thm_coherent_fixed (deployed_cfg direct enabled ttl) t0 ops); [reflexivity|apply deployed_covers|exact H].
+Qed.
